@@ -24,15 +24,61 @@ def sarkG : Nat := powMod ZETA sarkM q
 /-- `g{k}[i] = G^(i * 2^k)` (invsqrt.rs:41-51) -/
 def gtab (k i : Nat) : Nat := powMod sarkG (i * 2 ^ k) q
 
+/-- the key inserted for `nu`: the inverse of `G^(nu * 2^(N-W))` -/
+def skey (nu : Nat) : Nat := finv q (powMod sarkG (nu * 2 ^ (sarkN - sarkW)) q)
+
 /-- `s_lookup`: key `(G^(nu * 2^(N-W)))^{-1}` ↦ `nu`, nu = 0..255 (invsqrt.rs:29-38) -/
 def sTableAux : Nat → List (Nat × Nat)
   | 0 => []
-  | n + 1 => sTableAux n ++ [(finv q (powMod sarkG (n * 2 ^ (sarkN - sarkW)) q), n)]
+  | n + 1 => sTableAux n ++ [(skey n, n)]
 
 def sTable : List (Nat × Nat) := sTableAux 256
 
 /-- HashMap index; a later insert of the same key overwrites, so search from the back -/
 def sLookup (x : Nat) : Option Nat := (sTable.reverse.find? (fun kv => kv.1 == x)).map (·.2)
+
+/-! The second phase of `sqrt_ratio_zeta` (invsqrt.rs:86-163), one definition per block of the straight-line code:
+five squaring chains, six table lookups (a `none` = the panic of a failed `HashMap` index; `Option.bind` propagates it), the final product. -/
+
+/-- invsqrt.rs:140-163: halve `t`, pick the non-square correction, multiply the table entries -/
+def sarkFin (uv q0' t : Nat) : Bool × Nat :=
+  let t := (t + 1) / 2
+  let ns := if q0' % 2 == 0 then 1 else zetaToOneMinusMDiv2
+  let res := fmul q (fmul q (fmul q (fmul q (fmul q (fmul q (fmul q uv ns) (gtab 0 (t % 256)))
+                (gtab 8 ((t / 2 ^ 8) % 256))) (gtab 16 ((t / 2 ^ 16) % 256))) (gtab 24 ((t / 2 ^ 24) % 256)))
+                (gtab 32 ((t / 2 ^ 32) % 256))) (gtab 40 ((t / 2 ^ 40) % 256))
+  (q0' % 2 == 0, res)
+
+def sarkS5 (uv x5 q0' t : Nat) : Option (Bool × Nat) :=
+  let alpha5 := fmul q (fmul q (fmul q (fmul q (fmul q x5 (gtab 0 (t % 256))) (gtab 8 ((t / 2 ^ 8) % 256)))
+                  (gtab 16 ((t / 2 ^ 16) % 256))) (gtab 24 ((t / 2 ^ 24) % 256))) (gtab 32 ((t / 2 ^ 32) % 256))
+  (sLookup alpha5).bind fun q5 => some (sarkFin uv q0' (t + q5 * 2 ^ 39))
+
+def sarkS4 (uv x5 x4 q0' t : Nat) : Option (Bool × Nat) :=
+  let alpha4 := fmul q (fmul q (fmul q (fmul q x4 (gtab 8 (t % 256))) (gtab 16 ((t / 2 ^ 8) % 256)))
+                  (gtab 24 ((t / 2 ^ 16) % 256))) (gtab 32 ((t / 2 ^ 24) % 256))
+  (sLookup alpha4).bind fun q4 => sarkS5 uv x5 q0' (t + q4 * 2 ^ 31)
+
+def sarkS3 (uv x5 x4 x3 q0' t : Nat) : Option (Bool × Nat) :=
+  let alpha3 := fmul q (fmul q (fmul q x3 (gtab 16 (t % 256))) (gtab 24 ((t / 2 ^ 8) % 256))) (gtab 32 ((t / 2 ^ 16) % 256))
+  (sLookup alpha3).bind fun q3 => sarkS4 uv x5 x4 q0' (t + q3 * 2 ^ 23)
+
+def sarkS2 (uv x5 x4 x3 x2 q0' t : Nat) : Option (Bool × Nat) :=
+  let alpha2 := fmul q (fmul q x2 (gtab 24 (t % 256))) (gtab 32 ((t / 2 ^ 8) % 256))
+  (sLookup alpha2).bind fun q2 => sarkS3 uv x5 x4 x3 q0' (t + q2 * 2 ^ 15)
+
+def sarkS1 (uv x5 x4 x3 x2 x1 q0' : Nat) : Option (Bool × Nat) :=
+  let t := q0'
+  let alpha1 := fmul q x1 (gtab 32 (t % 256))
+  (sLookup alpha1).bind fun q1' => sarkS2 uv x5 x4 x3 x2 q0' (t + q1' * 2 ^ 7)
+
+def sarkTail (uv x5 : Nat) : Option (Bool × Nat) :=
+  let x4 := powMod x5 (2 ^ 8) q
+  let x3 := powMod x4 (2 ^ 8) q
+  let x2 := powMod x3 (2 ^ 8) q
+  let x1 := powMod x2 (2 ^ 8) q
+  let x0 := powMod x1 (2 ^ 7) q
+  (sLookup x0).bind fun q0' => sarkS1 uv x5 x4 x3 x2 x1 q0'
 
 def sqrtRatioArk (num den : Nat) : Option (Bool × Nat) :=
   if num == 0 then some (true, num)
@@ -44,48 +90,7 @@ def sqrtRatioArk (num den : Nat) : Option (Bool × Nat) :=
     let v := fmul q w den
     let uv := fmul q w num
     let x5 := fmul q uv v
-    let x4 := powMod x5 (2 ^ 8) q
-    let x3 := powMod x4 (2 ^ 8) q
-    let x2 := powMod x3 (2 ^ 8) q
-    let x1 := powMod x2 (2 ^ 8) q
-    let x0 := powMod x1 (2 ^ 7) q
-    match sLookup x0 with
-    | none => none
-    | some q0' =>
-    let t := q0'
-    let alpha1 := fmul q x1 (gtab 32 (t % 256))
-    match sLookup alpha1 with
-    | none => none
-    | some q1' =>
-    let t := t + q1' * 2 ^ 7
-    let alpha2 := fmul q (fmul q x2 (gtab 24 (t % 256))) (gtab 32 ((t / 2 ^ 8) % 256))
-    match sLookup alpha2 with
-    | none => none
-    | some q2 =>
-    let t := t + q2 * 2 ^ 15
-    let alpha3 := fmul q (fmul q (fmul q x3 (gtab 16 (t % 256))) (gtab 24 ((t / 2 ^ 8) % 256))) (gtab 32 ((t / 2 ^ 16) % 256))
-    match sLookup alpha3 with
-    | none => none
-    | some q3 =>
-    let t := t + q3 * 2 ^ 23
-    let alpha4 := fmul q (fmul q (fmul q (fmul q x4 (gtab 8 (t % 256))) (gtab 16 ((t / 2 ^ 8) % 256)))
-                    (gtab 24 ((t / 2 ^ 16) % 256))) (gtab 32 ((t / 2 ^ 24) % 256))
-    match sLookup alpha4 with
-    | none => none
-    | some q4 =>
-    let t := t + q4 * 2 ^ 31
-    let alpha5 := fmul q (fmul q (fmul q (fmul q (fmul q x5 (gtab 0 (t % 256))) (gtab 8 ((t / 2 ^ 8) % 256)))
-                    (gtab 16 ((t / 2 ^ 16) % 256))) (gtab 24 ((t / 2 ^ 24) % 256))) (gtab 32 ((t / 2 ^ 32) % 256))
-    match sLookup alpha5 with
-    | none => none
-    | some q5 =>
-    let t := t + q5 * 2 ^ 39
-    let t := (t + 1) / 2
-    let ns := if q0' % 2 == 0 then 1 else zetaToOneMinusMDiv2
-    let res := fmul q (fmul q (fmul q (fmul q (fmul q (fmul q (fmul q uv ns) (gtab 0 (t % 256)))
-                  (gtab 8 ((t / 2 ^ 8) % 256))) (gtab 16 ((t / 2 ^ 16) % 256))) (gtab 24 ((t / 2 ^ 24) % 256)))
-                  (gtab 32 ((t / 2 ^ 32) % 256))) (gtab 40 ((t / 2 ^ 40) % 256))
-    some (q0' % 2 == 0, res)
+    sarkTail uv x5
 
 /-! ### the minimal backend -/
 
